@@ -9,7 +9,7 @@ EXTENDS ValidationOps, TLC, Json
 CONSTANTS BaseSet,        \* indices into Bases explored
           PairBaseSet,    \* bases for which all pairs of malformations are explored
           HierarchyCheck, \* FALSE = deviation D10: conditional_on is not checked against i
-          Shortcut        \* "none" | "allfixed" | "sample" | "slicerkw": validations skipped by a shortcut
+          Shortcut        \* "none" | "allfixed" | "sample" | "slicerkw" | "lateref" | "paramsignored"
 VARIABLES pc, case, stage, cls
 
 vars == <<pc, case, stage, cls>>
@@ -24,7 +24,7 @@ Step(from, to, k, exc) ==
     /\ UNCHANGED case
 
 Construct == Step("described", "constructed", 1, ConstructExc(case, HierarchyCheck, Shortcut))
-Slice     == Step("constructed", "sliced", 2, SliceExc(case))
+Slice     == Step("constructed", "sliced", 2, SliceExc(case, Shortcut))
 Fit       == Step("sliced", "fitted", 3, IF case.ctx.fitted THEN FitExc(case, Shortcut) ELSE "none")
 Compute   == /\ pc = "fitted"
              /\ LET exc == ComputeExc(case, Shortcut) IN
